@@ -162,3 +162,40 @@ Proof.
   - replace (j + S k)%nat with (S j + k)%nat by lia. apply (IH (S j) (prune crit (expand next K))); [|exact Ha].
     intros p Hp. apply prune_sub, expand_in in Hp. destruct Hp as [q [Hq [v [Hv ->]]]]. apply (proj2 (exts_snoc next (fun _ => true) crit crit j [] (q ++ [v]))). exists q. split; [apply HK, Hq|]. exists v. split; [exact Hv|reflexivity].
 Qed.
+
+(* ---- where sound criteria come from: the objectives (and validity) depend on the chosen prefix only through terms in which they are
+   monotone, and two prefixes of equal length admit the same suffixes *)
+Lemma exts_length next k : forall p a, In a (exts next k p) -> length a = (length p + k)%nat.
+Proof.
+  induction k as [|k IH]; intros p a H; cbn [exts] in H.
+  - destruct H as [<-|[]]. lia.
+  - apply in_flat_map in H. destruct H as [v [_ H]]. apply IH in H. rewrite app_length in H. cbn in H. lia.
+Qed.
+
+Lemma monotone_terms_sound next valid obj crit n :
+  (forall j k p q a, (j + k = n)%nat -> In p (exts next j []) -> In q (exts next j []) -> In a (exts next k p) ->
+     exists c, a = p ++ c /\ In (q ++ c) (exts next k q)) ->
+  (forall p q c, length p = length q -> vle (crit q) (crit p) = true ->
+     vle (obj (q ++ c)) (obj (p ++ c)) = true /\ (valid (p ++ c) = true -> valid (q ++ c) = true)) ->
+  forall j k p q, (j + k = n)%nat -> In p (exts next j []) -> In q (exts next j []) -> vle (crit q) (crit p) = true ->
+  forall a, In a (exts next k p) -> valid a = true -> exists b, In b (exts next k q) /\ valid b = true /\ vle (obj b) (obj a) = true.
+Proof.
+  intros Hsuf Hmon j k p q Hn Hp Hq Hle a Ha Va. destruct (Hsuf j k p q a Hn Hp Hq Ha) as [c [-> Hc]].
+  assert (length p = length q) as Hl by (apply exts_length in Hp, Hq; cbn in Hp, Hq; lia).
+  destruct (Hmon p q c Hl Hle) as [Ho Hv]. exists (q ++ c). split; [exact Hc|]. split; [apply Hv, Va|exact Ho].
+Qed.
+
+(* candidate sets that depend on the position only (not on the values chosen) give every prefix of one length the same suffixes *)
+Lemma exts_suffix next : (forall p q, length p = length q -> next p = next q) ->
+  forall k p q, length p = length q -> forall a, In a (exts next k p) -> exists c, a = p ++ c /\ In (q ++ c) (exts next k q).
+Proof.
+  intro Hn. induction k as [|k IH]; intros p q Hl a Ha; cbn [exts] in *.
+  - destruct Ha as [<-|[]]. exists []. rewrite !app_nil_r. split; [reflexivity|left; reflexivity].
+  - apply in_flat_map in Ha. destruct Ha as [v [Hv Ha]].
+    destruct (IH (p ++ [v]) (q ++ [v])) with (a := a) as [c [-> Hc]]; [rewrite !app_length; cbn; lia|exact Ha|].
+    exists (v :: c). split; [rewrite <- app_assoc; reflexivity|]. apply in_flat_map. exists v. split; [rewrite <- (Hn p q Hl); exact Hv|].
+    rewrite <- app_assoc in Hc. cbn [app] in Hc. replace ((q ++ [v]) ++ c) with (q ++ v :: c) by (rewrite <- app_assoc; reflexivity). exact Hc.
+Qed.
+
+Lemma vle_app_same c : forall q p, vle q p = true -> vle (q ++ c) (p ++ c) = true.
+Proof. induction q as [|x q IH]; intros [|y p] H; cbn in *; try discriminate; [apply vle_refl|]. apply andb_true_iff in H. destruct H as [H1 H2]. rewrite H1, (IH p H2). reflexivity. Qed.
